@@ -843,7 +843,11 @@ def prepbufr_check(drv, limit=None):
         if pos < 0 or (limit and k >= limit):
             break
         eb, ed = cache_extras()
-        msg = dec.process(s[pos:], start_signature=None, wire_template_data=False)
+        try:
+            msg = dec.process(s[pos:], start_signature=None, wire_template_data=False)
+        except Exception as e:  # noqa
+            viol.append('prepbufr message %d: implementation failed to decode: %s' % (k, core.err_tag(e)))
+            break
         b = msg.serialized_bytes
         key = msg.table_group_key
         tb, td = tables_io.read_group(key.wmo_tables_sn, key.local_tables_sn, key.tables_root_dir, extra_b=eb, extra_d=ed)
@@ -854,7 +858,11 @@ def prepbufr_check(drv, limit=None):
         reqs.append({'op': 'dec-data', 'ids': ids, 'compressed': comp, 'n': nsub, 'bits': C.data_bits(b), 'fix_ncep': bool(eb or ed)})
         checks.append(('decode', k, subs))
         if msg.data_category.value == 11 and nsub > 0:
-            _, be, de = BufrTableDefinitionProcessor().process(msg)
+            try:
+                _, be, de = BufrTableDefinitionProcessor().process(msg)
+            except Exception as e:  # noqa
+                viol.append('prepbufr message %d: processor failed: %s' % (k, core.err_tag(e)))
+                break
             reqs.append({'op': 'tabledef-extract', 'ids': ids, 'vals': [C.from_py_exact(v) for v in subs[0]['v']]})
             checks.append(('extract', k, canon_entries(be, de)))
             TableGroupCacheManager.invalidate()
